@@ -5,20 +5,12 @@ namespace Rl4co.Driver.Mdcpdp
 open Rl4co.Proto
 open Rl4co.Mdcpdp
 
-/-- what the row itself would contribute as row 0, along its own (solo) run -/
-def ownLeads (i : Inst) (as : List Nat) : List Lead :=
-  let rec go (s : State) (acc : List Lead) : List Nat → List Lead
-    | [] => acc.reverse
-    | a :: as => go (step i s a) ({ raw := i.D s.cur a, done := doneAfter i s a } :: acc) as
+/-- states after 0..T actions -/
+def states (i : Inst) (as : List Nat) : List State :=
+  let rec go (s : State) (acc : List State) : List Nat → List State
+    | [] => (s :: acc).reverse
+    | a :: as => go (step i s a) (s :: acc) as
   go (reset i) [] as
-
-/-- states after 0..T actions, stepping with the given contributions of row 0 (missing entries: own) -/
-def statesWith (i : Inst) (leads : List Lead) (as : List Nat) : List State :=
-  let rec go (s : State) (acc : List State) : List Lead → List Nat → List State
-    | _, [] => (s :: acc).reverse
-    | L :: ls, a :: as => go (stepWith L i s a) (s :: acc) ls as
-    | [], a :: as => go (step i s a) (s :: acc) [] as
-  go (reset i) [] leads as
 
 def admittedAlong (i : Inst) : List State → List Nat → Bool
   | s :: ss, a :: as => decide (a < i.N) && s.mask a && admittedAlong i ss as
@@ -33,8 +25,7 @@ def mkInst (hd cap dm : List Int) : Option Inst :=
            D := fn2 n.toNat dm, openMode := op != 0, wNum := wn, wDen := wd }
   | _ => none
 
-/-- `mdcpdp.episode N K split0 KG open mode wNum wDen specK specH | cap | specCap | D N² | actions
-       [ | N0 K0 split0 KG0 open0 mode0 wNum0 wDen0 | cap0 | D0 | actions0 ]`   (optional: row 0 of the batch)
+/-- `mdcpdp.episode N K split0 KG open mode wNum wDen specK specH | cap | specCap | D N² | actions`
 mode: 0 minmax, 1 minsum, 2 lateness (reward scaled by wDen). -/
 def episode (toks : List String) : Option String := do
   let secs ← parseSections toks
@@ -48,12 +39,7 @@ def episode (toks : List String) : Option String := do
   let specK := (hd.getD 8 0).toNat
   let specH := (hd.getD 9 0).toNat
   let as := toNats acts
-  let leads ← match secs[5]?, secs[6]?, secs[7]?, secs[8]? with
-    | some hd0, some cap0, some dm0, some acts0 => do
-        let i0 ← mkInst hd0 cap0 dm0
-        pure (ownLeads i0 (toNats acts0))
-    | _, _, _, _ => pure (ownLeads i as)
-  let sts := statesWith i leads as
+  let sts := states i as
   let fin := sts.getLastD (reset i)
   let firstDone := (sts.find? (·.done)).getD fin
   let masks := ",".intercalate (sts.map (fun s => maskBits i.N s.mask))
